@@ -72,6 +72,11 @@ def audit_structural(f):
     except Exception as e:
         return None, repr(e)
     bad = [k for k in AUDIT_KEYS if k in audit and not audit[k]]
+    if 'VAR' in bad and int(f.NVARS) == 0 and len(f.dimensions['VAR']) == 1:
+        # a file without listed variables keeps a VAR dimension of 1 (the
+        # library's own getVarlist does that); the audit counts it as a
+        # mismatch
+        bad.remove('VAR')
     bad += [k for k in audit if k.startswith('has_') and not audit[k] and
             k[4:] in f.getVarlist(update=False)]
     return bad, None
